@@ -667,6 +667,7 @@ class Daemon(object):
                 raise TypeError("objectId must be a string or None")
         else:
             objectId = "obj_" + uuid.uuid4().hex  # generate a new objectId
+        uri = self.uriFor(objectId)  # (first: an id that cannot appear in a uri is refused before anything is registered)
         if inspect.isclass(obj_or_class):
             if weak: raise TypeError("Classes cannot be registered with weak=True.")
             if not hasattr(obj_or_class, "_pyroInstancing"):
@@ -698,7 +699,7 @@ class Daemon(object):
             weakref.finalize(obj_or_class, self._unregister_collected, objectId, ref)
         else:
             self.objectsById[obj_or_class._pyroId] = obj_or_class
-        return self.uriFor(objectId)
+        return uri
 
     def _unregister_collected(self, objectId, ref):
         """A weakly registered object was garbage collected: forget its id, unless that id designates something else by now."""
